@@ -1,3 +1,105 @@
 package rules
 
-func c18Composite(c *Ctx, env *cssEnv) {}
+import (
+	"fmt"
+	"go/ast"
+	"os"
+	"sort"
+	"strings"
+	"time"
+
+	"verif/tools/csslang"
+)
+
+// c18Composite computes the language of every handler of package css by abstract interpretation of its body
+// (package csslang) and checks that it has an empty intersection with the hostile language.
+func c18Composite(c *Ctx, env *cssEnv) {
+	R := c.R
+	e := csslang.NewEnv(env.A)
+	in := csslang.NewInterp(e, c.P.CSS, env.vars)
+	names := in.HandlerNames()
+	registered := c18RegisteredHandlers(c)
+	nExact, nInexact := 0, 0
+	var table []map[string]any
+	for _, n := range names {
+		fd := c.P.CSS.Types.Scope().Lookup(n)
+		pos := ""
+		if fd != nil {
+			pos = c.P.Pos(fd.Pos())
+		}
+		cons := "css." + n
+		if registered[n] {
+			cons += " (registered)"
+		}
+		t0 := time.Now()
+		r := in.Lang(n)
+		if os.Getenv("VERIF_TRACE") != "" {
+			st := -1
+			if r.L != nil {
+				st = r.L.N()
+			}
+			fmt.Fprintf(os.Stderr, "  [c18.R7] %-36s %6.2fs states=%d exact=%v %s\n", n, time.Since(t0).Seconds(), st, r.Exact, r.Undecided)
+		}
+		key := "handler:" + n
+		if r.Undecided != "" {
+			R.Unknown("C18.R7", key, cons, pos, "the body uses an idiom the handler-language interpreter does not model: "+r.Undecided)
+			continue
+		}
+		row := map[string]any{"handler": n, "exact": r.Exact, "dfa_states": r.L.N(), "schemas": r.Schemas}
+		if w, ok := r.L.Witness(); ok {
+			row["shortest_accepted"] = w
+		} else {
+			row["shortest_accepted"] = nil
+		}
+		table = append(table, row)
+		if r.Exact {
+			nExact++
+		} else {
+			nInexact++
+		}
+		if hn, w, bad := env.hostileWitness(r.L); bad {
+			why := fmt.Sprintf("the handler accepts a value containing a hostile fragment (%s)", hn)
+			if !r.Exact {
+				why = fmt.Sprintf("the computed over-approximation of the handler's language contains a value with a hostile fragment (%s); schemas: %s", hn, strings.Join(r.Schemas, "; "))
+			}
+			o := R.Fail("C18.R7", key, cons, pos, why)
+			o.Witness = w
+			continue
+		}
+		R.OK("C18.R7", key, cons, pos, fmt.Sprintf("L⁺(%s) ∩ H = ∅ (%d-state DFA, exact=%v)", n, r.L.N(), r.Exact))
+	}
+	R.Role("C18.R7", "handlers interpreted", len(names), 100)
+	R.Analysed["handlers_exact"] = nExact
+	R.Analysed["handlers_overapprox"] = nInexact
+	sort.Slice(table, func(i, j int) bool { return table[i]["handler"].(string) < table[j]["handler"].(string) })
+	R.Extra["handler_languages"] = table
+}
+
+// c18RegisteredHandlers: the function names appearing as values in the defaultStyleHandlers literal.
+func c18RegisteredHandlers(c *Ctx) map[string]bool {
+	out := map[string]bool{}
+	for _, f := range c.P.CSS.Syntax {
+		ast.Inspect(f, func(n ast.Node) bool {
+			vs, ok := n.(*ast.ValueSpec)
+			if !ok {
+				return true
+			}
+			for i, name := range vs.Names {
+				if name.Name != "defaultStyleHandlers" || i >= len(vs.Values) {
+					continue
+				}
+				if cl, ok := ast.Unparen(vs.Values[i]).(*ast.CompositeLit); ok {
+					for _, el := range cl.Elts {
+						if kv, ok := el.(*ast.KeyValueExpr); ok {
+							if id, ok := ast.Unparen(kv.Value).(*ast.Ident); ok {
+								out[id.Name] = true
+							}
+						}
+					}
+				}
+			}
+			return true
+		})
+	}
+	return out
+}
